@@ -60,6 +60,12 @@ func allCombos() []combo {
 			out = append(out, combo{2, k, p})
 		}
 	}
+	// the control connection ends after Login was read and before LoginResp / the session's workers
+	for _, e := range []int{1, 2} {
+		for _, k := range kinds {
+			out = append(out, combo{e, k, "login-cut"})
+		}
+	}
 	// groups with several live members and a stranger whose join is refused at the group check
 	for _, e := range []int{1, 2} {
 		for _, k := range []string{"tcp-group", "http-group", "tcpmux-group"} {
@@ -387,6 +393,8 @@ func runCase(c *h.Case, e *env, kind, path string) {
 			k.pathHeartbeat()
 		case "pool":
 			k.pathPool()
+		case "login-cut":
+			k.pathLoginCut()
 		default:
 			k.pathDrop()
 		}
@@ -1296,4 +1304,108 @@ func (k *kase) strangerJoin() {
 			break
 		}
 	}
+}
+
+// ---------------------------------------------------------------------------------------------
+// the control connection ends in the login window: after frps read Login (the session is already in the session
+// table), before LoginResp is written and the session's workers are started
+
+// cutInLoginWindow logs in with runID through a relay, parks the server between "session added" and "session
+// started", cuts the TCP connection (RST or FIN) and lets the server go on. It reports whether the window was hit.
+func cutInLoginWindow(c *h.Case, e *env, runID string, pool int, rst bool, settle time.Duration) (hit bool, why string) {
+	relay, err := h.StartTCPRelay(h.PortsSub(prop, 19, 20).Get(), fmt.Sprintf("127.0.0.1:%d", e.bind), 0)
+	if err != nil {
+		return false, "relay could not be started"
+	}
+	defer relay.Close()
+	g := h.NewGate("server.registerControl.beforeStart", runID, 1)
+	defer g.Release()
+	done := make(chan *h.Peer, 1)
+	go func() {
+		p, _ := h.DialPeer(h.PeerOpts{ServerPort: relay.Port, TCPMux: e.tcpMux, Token: token, RunID: runID, PoolCount: pool})
+		done <- p
+	}()
+	if !g.WaitArrived(20 * time.Second) {
+		g.Release()
+		if p := <-done; p != nil {
+			p.Close()
+		}
+		return false, "login gate not reached"
+	}
+	for _, pr := range relay.Pairs() {
+		if tc, ok := pr.Server.(*net.TCPConn); ok && rst {
+			_ = tc.SetLinger(0)
+		}
+		pr.Close()
+	}
+	time.Sleep(settle) // lets the server notice the end of the connection (or not): both are legal schedules
+	g.Release()
+	select {
+	case p := <-done:
+		if p != nil {
+			if p.LoggedIn() {
+				p.Close()
+				return false, "login answered although the connection was cut"
+			}
+			p.Close()
+		}
+	case <-time.After(30 * time.Second):
+		return false, "scripted client did not notice the cut"
+	}
+	c.Ev("login-cut", "run_id", runID, "rst", rst, "settle_ms", settle.Milliseconds(), "pool", pool)
+	run.Count("login_window_cuts", 1)
+	return true, ""
+}
+
+func (k *kase) pathLoginCut() {
+	rst := k.rng.Intn(2) == 0
+	settle := []time.Duration{0, 2 * time.Millisecond, 40 * time.Millisecond, 40 * time.Millisecond, 120 * time.Millisecond}[k.rng.Intn(5)]
+	replace := k.rng.Intn(2) == 0
+	pool := k.rng.Intn(3)
+	k.variant = append(k.variant, fmt.Sprintf("rst%v", rst), fmt.Sprintf("settle%v", settle), fmt.Sprintf("replace%v", replace), fmt.Sprintf("lpool%d", pool))
+	runID := fmt.Sprintf("c%dlogin%s", k.c.Idx, k.tag)
+	if replace {
+		// the cut login replaces a live session of the same run id that holds the proxy
+		if !k.mustRegister("setup", k.V, k.vs, "") {
+			return
+		}
+		k.expectServed("before the cut re-login", k.vs, k.servers(k.V)...)
+		runID = k.V.rid
+		k.V.stopKeepAlive()
+	}
+	k.sc.rids[runID] = "W"
+	hit, why := cutInLoginWindow(k.c, k.e, runID, pool, rst, settle)
+	if !hit {
+		k.inconclusive(why)
+		return
+	}
+	run.Count("session_drops", 1)
+	if !waitSessionGone(k.e, runID, 20*time.Second) {
+		dumpGoroutines(fmt.Sprintf("stuck-c%d.txt", k.c.Idx))
+		k.c.Violation("session-cut-in-login-window-never-released",
+			"control connection of run id %s was cut (%s) after frps had read Login and put the session into its table, before LoginResp / the start of the session's workers: the session is still in the session table 20 s later (%s, %s)",
+			runID, map[bool]string{true: "RST", false: "FIN"}[rst], k.e.name, k.kind)
+	}
+	if replace && !k.V.p.WaitClosed(15*time.Second) {
+		k.c.Violation(k.key("replaced-control-connection-left-open"), "the session replaced by the cut re-login still has its control connection open")
+	}
+	if k.c.Violations() == 0 && !k.checkLedger("after the cut in the login window", k.liveB()) {
+		return
+	}
+	if replace {
+		k.expectGone("after the cut in the login window", k.vs, k.V)
+	}
+	// the same client comes back: same run id, same names and ports
+	W, err := newActor(k.c, k.e, "W", runID, 0, true)
+	if err != nil {
+		k.c.Violation("login-blocked-after-session-cut-in-login-window", "a client logging in with run id %s after its previous session was cut in the login window gets no LoginResp: %v", runID, err)
+		return
+	}
+	k.actors = append(k.actors, W)
+	W.keepAlive()
+	if !k.mustRegister("after the cut in the login window (same run id)", W, k.vs, "reregistration-after-login-window-cut-refused") {
+		return
+	}
+	k.expectServed("after the cut in the login window (same run id)", k.vs, k.servers(W)...)
+	k.checkLedger("re-registered after the cut in the login window", append(k.liveB(), live{k.vs, W}))
 }
